@@ -68,15 +68,15 @@ def run(ctx):
     # the same workflows under several configurations
     extra = []
     groups = []
-    for _ in range(ctx.budget(3, 30)):
+    for _ in range(fakes.bud(ctx, 3, 14)):
         nodes = fakes.gen_nodes(rng)
         nj = sum(fakes.njobs(n) for n in nodes)
         grp = []
         grp.append(dict(nodes=nodes, k=None, fail=[], oracle=[], mode="sync"))
         for _ in range(2):
             grp.append(dict(nodes=nodes, k=fakes.gen_k(rng, nj), fail=[], oracle=fakes.gen_oracle(rng, nj), mode="async"))
-        for n_procs in rng.sample([1, 2, 4, 8], 1 if ctx.tier == "quick" else 4):
-            grp.append(dict(nodes=nodes, k=rng.choice([None, 1, 2, nj]), fail=[], oracle=[], mode="cf", n_procs=n_procs))
+        for n_procs in rng.sample([1, 2, 4, 8], 1 if ctx.tier == "quick" else 2):
+            grp.append(dict(nodes=nodes, k=rng.choice([None, 1, 2, max(nj, 1)]), fail=[], oracle=[], mode="cf", n_procs=n_procs))
         groups.append((len(extra), len(grp)))
         extra += grp
     # state-propagating shapes: a node split over three fields with a partial combiner, read element-wise by a
@@ -86,7 +86,7 @@ def run(ctx):
         if c.get("mode") == "state":            # corpus cases get the sequential run as their reference
             sgroups.append((len(extra), 2))
             extra += [dict(nodes=c["nodes"], k=None, fail=[], oracle=[], mode="state_sync"), dict(c)]
-    for _ in range(ctx.budget(2, 30)):
+    for _ in range(fakes.bud(ctx, 2, 14)):
         nodes = fakes.gen_state_nodes(rng)
         nj = sum(fakes.njobs(n) for n in nodes)
         grp = [dict(nodes=nodes, k=None, fail=[], oracle=[], mode="state_sync")]
@@ -100,11 +100,11 @@ def run(ctx):
     # node bodies whose return value needs coercion to the declared output type, across workers
     cgroups = []
     ccases = [c.get("case", c) for c in ctx.corpus() if c.get("case", c).get("mode", "").startswith("coerce")]
-    for n in range(ctx.budget(2, 16) + len(ccases)):
+    for n in range(fakes.bud(ctx, 2, 10) + len(ccases)):
         if n < len(ccases):
             xs = ccases[n].get("xs_param")
         else:
-            xs = rng.choice([rng.randint(0, 9), [rng.randint(0, 9) for _ in range(rng.randint(1, 3))]])
+            xs = rng.choice([rng.randint(0, 9), rng.sample(range(10), rng.randint(1, 3))])   # distinct: equal inputs = equal checksums = one job
         nodes = coerce_nodes(xs)
         nj = sum(fakes.njobs(nd) for nd in nodes)
         grp = [dict(nodes=nodes, k=None, fail=[], oracle=[], mode="coerce_sync", xs_param=xs),
@@ -113,7 +113,7 @@ def run(ctx):
         cgroups.append((len(extra), len(grp), xs))
         extra += grp
     out, cases, obs, usable, bad = fakes.drive(
-        ctx, "c17", SPEC, ctx.budget(10, 150), ctx.budget(3, 30), ctx.budget(6, 200), RULE,
+        ctx, "c17", SPEC, fakes.bud(ctx, 10, 150), fakes.bud(ctx, 3, 30), fakes.bud(ctx, 6, 200), RULE,
         "outputs differ from the reference evaluation of the workflow", fail_p=0.0, extra_cases=extra)
     base = len(cases) - len(extra)
     ngroups = 0
